@@ -48,7 +48,7 @@ def dwarf_value_laws(ctx, h):
     from . import dwcorr, elfsym
     fs = dwcorr.Forests(ctx)
     rng = ctx.rng
-    LOCV = "entry attribute ?(label == (DW_AT_location, DW_AT_frame_base, DW_AT_data_member_location)) value ?(type == T_LOCLIST_ELEM)"
+    LOCV = "entry attribute ?(label == (DW_AT_location, DW_AT_frame_base, DW_AT_data_member_location, DW_AT_data_location, DW_AT_return_addr, DW_AT_static_link, DW_AT_use_location, DW_AT_vtable_elem_location, DW_AT_segment)) value ?(type == T_LOCLIST_ELEM)"
     kinds = [("raw DIE", "raw entry"), ("raw attribute", "raw entry attribute"), ("attribute", "entry ?(pos < 6) attribute"),
              ("unit", "unit"), ("raw unit", "raw unit"), ("location-list element", LOCV), ("location operation", LOCV + " elem"),
              ("abbreviation table", "abbrev"), ("abbreviation", "abbrev entry"), ("abbreviation attribute", "abbrev entry ?(pos < 5) attribute"),
